@@ -20,6 +20,12 @@ From MV Require Import XRef.XRefProofs.
 From MV Require Import XRef.XRefSrcBase.
 From MV Require Import Gen.C12Src.
 From MV Require Import XRef.XRefSrcProofs.
+From MV Require Base.Res.
+From MV Require Refs.Anchors.
+From MV Require Gen.AnchorsSrc.
+From MV Require Import XRef.IncludeModel.
+From MV Require Import XRef.IncludeProofs.
+From MV Require Import XRef.XRefPipeline.
 Import ListNotations.
 Open Scope N_scope.
 
@@ -67,7 +73,7 @@ Print Assumptions C12_relative_uri_roundtrip_premise_refuted.
    existing file (download) or to a missing one (reported when rendered). *)
 Theorem C12_path_spellings : forall (P : project) (d : docrec) (tp : list str) (sp : str),
   segs_ok (p_srcdir P) -> segs_ok (d_dir d) -> Forall name_ok tp -> spells (d_dir d) tp sp ->
-  p_all_external P = false ->
+  plain_url_mode P = false ->
   relfn2path (p_srcdir P) (d_dir d) sp = Inside tp
   /\ (forall dn frag ch,
         is_file P (Inside tp) = true -> path2doc (p_suffixes P) (Inside tp) = Some dn -> dn <> [] ->
@@ -111,7 +117,7 @@ Theorem C12_path_spellings_docname_anchor : forall P d bn tdn sp frag ch td,
   segs_ok (d_dir d) -> seg_ok bn -> d_name d = join s_slash (d_dir d ++ [bn]) ->
   Forall name_ok tdn -> spells (d_dir d) tdn sp ->
   is_file P (relfn2path (p_srcdir P) (d_dir d) sp) = false ->
-  find_doc (p_docs P) (join s_slash tdn) = Some td -> p_all_external P = false ->
+  find_doc (p_docs P) (join s_slash tdn) = Some td -> plain_url_mode P = false ->
   render_link P d (mklink (with_frag sp (Some frag)) false ch) = C_doc (join s_slash tdn) (Some frag).
 Proof. exact unknown_docname_anchor. Qed.
 Print Assumptions C12_path_spellings_docname_anchor.
@@ -148,7 +154,7 @@ Theorem C12_relative_docs_same_target : forall P d prefix cm r t k frag ch dn,
   (match frag with Some f => ~ In c_slash f | None => True end) ->
   startswith (with_frag (rel_spelling k r t) frag) prefix = true ->
   is_file P (Inside (cm ++ t)) = true -> path2doc (p_suffixes P) (Inside (cm ++ t)) = Some dn -> dn <> [] ->
-  p_all_external P = false ->
+  plain_url_mode P = false ->
   render_link P d (mklink_inc (with_frag (rel_spelling k r t) frag) false ch prefix (cm ++ r)) = C_doc dn frag.
 Proof. exact relative_docs_same_target. Qed.
 Print Assumptions C12_relative_docs_same_target.
@@ -293,17 +299,12 @@ Theorem C12_src_refines_model :
   /\ (forall P from ex t, option_map (mkcand r_doc) (resolve_doc_nested_src P from ex t) = resolve_doc_nested P from ex t)
   /\ (forall std other P from ex t, any_candidates_src std other P from ex t = any_candidates std other P from ex t)
   /\ (forall P from ex dn tid, resolve_myst_ref_doc_src P from ex dn tid = resolve_myst_ref_doc P from ex dn tid).
-Proof.
-  exact (conj abs_path_src_eq (conj handle_relative_docs_src_eq (conj render_link_project_src_eq
-        (conj render_link_path_src_eq (conj render_link_unknown_src_eq (conj render_link_src_eq
-        (conj resolve_ref_nested_src_eq (conj resolve_doc_nested_src_eq (conj any_candidates_src_eq
-        resolve_myst_ref_doc_src_eq))))))))).
-Qed.
+Proof. exact src_refines_model. Qed.
 Print Assumptions C12_src_refines_model.
 
 Theorem C12_path_spellings_src : forall (P : project) (d : docrec) (tp : list str) (sp : str),
   segs_ok (p_srcdir P) -> segs_ok (d_dir d) -> Forall name_ok tp -> spells (d_dir d) tp sp ->
-  p_all_external P = false ->
+  plain_url_mode P = false ->
   relfn2path (p_srcdir P) (d_dir d) sp = Inside tp
   /\ (forall dn frag ch,
         is_file P (Inside tp) = true -> path2doc (p_suffixes P) (Inside tp) = Some dn -> dn <> [] ->
@@ -361,6 +362,101 @@ Theorem C12_missing_once_src :
 Proof. exact missing_once_src. Qed.
 Print Assumptions C12_missing_once_src.
 
+(* ---------- round 4: the whole pipeline and the include bookkeeping, regenerated ---------- *)
+
+(* MystReferenceResolver.run (loop body, one pending_xref node) and resolve_myst_ref_any (whole) as regenerated:
+   nodes of another reftype are left alone; refdomain="doc" goes to resolve_myst_ref_doc; otherwise the first
+   candidate wins, several candidates give one xref_ambiguous, none gives intersphinx, then one xref_missing and
+   the fallback reference; an empty inline is replaced by the target as literal *)
+Theorem C12_run_src :
+  forall (std_objects other_domains : str -> list cand) (intersphinx : str -> option cand) P from ex t tid,
+  run_node_src std_objects other_domains intersphinx P from true false ex t tid
+    = Some (resolve_any std_objects other_domains intersphinx P from ex t)
+  /\ run_node_src std_objects other_domains intersphinx P from true true ex t tid
+    = Some (resolve_myst_ref_doc P from ex t tid)
+  /\ (forall is_doc, run_node_src std_objects other_domains intersphinx P from false is_doc ex t tid = None)
+  /\ resolve_myst_ref_any_src std_objects other_domains P from ex t
+    = (match any_candidates std_objects other_domains P from ex t with _ :: _ :: _ => [W_ambiguous t] | _ => [] end,
+       match any_candidates std_objects other_domains P from ex t with c :: _ => Some (cand_ref c) | [] => None end).
+Proof. exact run_src_all. Qed.
+Print Assumptions C12_run_src.
+
+(* [pipeline_src]: render_link_src, then - for '#target' links - ResolveAnchorIds.apply as regenerated by the C09
+   builder (Gen/AnchorsSrc.v, on registries rg whose explicit-name table is the document's: oracle O_sphinx_env),
+   then run_node_src.  It computes exactly the model's run_link. *)
+Theorem C12_pipeline_src_eq :
+  forall (std_objects other_domains : str -> list cand) (intersphinx : str -> option cand) nl supp rg line P d l,
+  Refs.Anchors.build_explicit false rg = Base.Res.Ok (ex_of d) ->
+  pipeline_src std_objects other_domains intersphinx nl supp rg line P d l
+  = Some (run_link std_objects other_domains intersphinx P d l).
+Proof. exact pipeline_src_eq. Qed.
+Print Assumptions C12_pipeline_src_eq.
+
+Theorem C12_text_explicit_pipeline :
+  forall (std_objects other_domains : str -> list cand) (intersphinx : str -> option cand),
+  (forall t c, In c (std_objects t) -> c_txt c = X_children) ->
+  (forall t c, In c (other_domains t) -> c_txt c = X_children) ->
+  (forall t c, intersphinx t = Some c -> c_txt c = X_children) ->
+  forall nl supp rg line P d l o,
+  Refs.Anchors.build_explicit false rg = Base.Res.Ok (ex_of d) ->
+  pipeline_src std_objects other_domains intersphinx nl supp rg line P d l = Some o ->
+  l_explicit l = true -> render_link_src P d l <> C_inv -> o_txt o = X_children.
+Proof. exact text_explicit_pipeline. Qed.
+Print Assumptions C12_text_explicit_pipeline.
+
+Theorem C12_missing_once_pipeline :
+  forall (std_objects other_domains : str -> list cand) (intersphinx : str -> option cand) nl supp rg line P d l o,
+  Refs.Anchors.build_explicit false rg = Base.Res.Ok (ex_of d) ->
+  pipeline_src std_objects other_domains intersphinx nl supp rg line P d l = Some o ->
+  p_nitpick P = [] ->
+  (unresolved_src std_objects other_domains intersphinx P d l -> count_missing (o_warns o) = 1%nat)
+  /\ (~ unresolved_src std_objects other_domains intersphinx P d l -> count_missing (o_warns o) = 0%nat).
+Proof. exact missing_once_pipeline. Qed.
+Print Assumptions C12_missing_once_pipeline.
+
+(* commonmark_only, gfm_only, all_links_external: render_link renders EVERY link as a plain URL
+   (DocutilsRenderer.render_link's first test): no resolution, no warning - the other theorems carry the
+   premise plain_url_mode P = false *)
+Theorem C12_plain_url_modes :
+  forall (std_objects other_domains : str -> list cand) (intersphinx : str -> option cand) P d l,
+  plain_url_mode P = true ->
+  render_link_src P d l = C_url (l_dest l)
+  /\ run_link std_objects other_domains intersphinx P d l = mk (T_ext (l_dest l)) X_children [].
+Proof. exact plain_url_mode_link. Qed.
+Print Assumptions C12_plain_url_modes.
+
+(* The include directive's bookkeeping of md_env["relative-images"/"relative-docs"], regenerated from
+   MockIncludeDirective.run (include_env_src; [render] = the nested render of the included content): whatever the
+   nested render does, md_env afterwards is what it was before ... *)
+Theorem C12_include_restores_src : forall (A : Type) o root cur dir (render : menv -> A * menv) env,
+  include_env_src o root cur dir render env = include_env o root dir render env
+  /\ snd (include_env_src o root cur dir render env) = env.
+Proof. exact include_restores_src_all. Qed.
+Print Assumptions C12_include_restores_src.
+
+(* ... for any nesting of includes (items = links and includes, to any depth) ... *)
+Theorem C12_include_nested_restores : forall root l env, snd (render_items root l env) = env.
+Proof. exact render_items_restores. Qed.
+Print Assumptions C12_include_nested_restores.
+
+(* ... and every link sees the setting of the nearest enclosing include that has :relative-docs:, based at the
+   OUTERMOST document's directory [root] - also the links that follow a nested include *)
+Theorem C12_include_nested_setting : forall root it env,
+  fst (render_item root it env) = seen root (me_docs env) it
+  /\ ((match me_docs env with Some (_, r, _) => r = root | None => True end) ->
+      Forall (fun s => match s with Some (_, r, _) => r = root | None => True end) (fst (render_item root it env))).
+Proof. exact include_nested_setting. Qed.
+Print Assumptions C12_include_nested_setting.
+
+(* that md_env entry is what the link model's l_include stands for: with C12_relative_docs_rewrite the destinations
+   of an included file at any nesting depth are rewritten to spellings relative to the outermost document *)
+Theorem C12_include_setting_is_rewrite : forall P d l prefix incdir dest,
+  l_include l = Some (prefix, incdir) ->
+  handle_relative_docs_src P d l dest
+  = handle_with_setting (Some (prefix, abs_dir_str P (d_dir d), abs_dir_str P incdir)) dest.
+Proof. exact include_setting_is_rewrite. Qed.
+Print Assumptions C12_include_setting_is_rewrite.
+
 (* ---------- tie to the source: regenerated tables (gen/c12_links.py) ---------- *)
 
 (* (the order of the tests of DocutilsRenderer.render_link is no longer compared as a table: render_link is
@@ -385,13 +481,13 @@ Definition ex_project : project :=
      p_docs := [ex_index; ex_one; ex_two; ex_aindex];
      p_labels := [{| lb_name := [108; 97; 98; 45; 120]; lb_doc := [97; 47; 111; 110; 101]; lb_id := [108; 97; 98; 45; 120]; lb_sect := Some [83; 101; 99; 32; 65] |}];
      p_files := [[[105; 110; 100; 101; 120; 46; 109; 100]]; [[97]; [111; 110; 101; 46; 109; 100]]; [[97]; [98]; [116; 119; 111; 46; 109; 100]]; [[97]; [105; 110; 100; 101; 120; 46; 109; 100]]; [[97]; [98]; [100; 97; 116; 97; 46; 116; 120; 116]]; [[115; 110; 105; 112]; [112; 97; 114; 116; 46; 105; 110; 99]]];
-     p_nitpick := []; p_url_schemes := [[104; 116; 116; 112]; [104; 116; 116; 112; 115]; [109; 97; 105; 108; 116; 111]; [102; 116; 112]]; p_dirhtml := false; p_all_external := false |}.
+     p_nitpick := []; p_url_schemes := [[104; 116; 116; 112]; [104; 116; 116; 112; 115]; [109; 97; 105; 108; 116; 111]; [102; 116; 112]]; p_dirhtml := false; p_all_external := false; p_commonmark_only := false; p_gfm_only := false |}.
 Definition ex_project_dirhtml : project :=
   {| p_srcdir := [[115; 114; 118]; [115; 114; 99]]; p_suffixes := [[46; 114; 115; 116]; [46; 109; 100]];
      p_docs := [ex_index; ex_one; ex_two; ex_aindex];
      p_labels := [{| lb_name := [108; 97; 98; 45; 120]; lb_doc := [97; 47; 111; 110; 101]; lb_id := [108; 97; 98; 45; 120]; lb_sect := Some [83; 101; 99; 32; 65] |}];
      p_files := [[[105; 110; 100; 101; 120; 46; 109; 100]]; [[97]; [111; 110; 101; 46; 109; 100]]; [[97]; [98]; [116; 119; 111; 46; 109; 100]]; [[97]; [105; 110; 100; 101; 120; 46; 109; 100]]; [[97]; [98]; [100; 97; 116; 97; 46; 116; 120; 116]]; [[115; 110; 105; 112]; [112; 97; 114; 116; 46; 105; 110; 99]]];
-     p_nitpick := []; p_url_schemes := [[104; 116; 116; 112]; [104; 116; 116; 112; 115]; [109; 97; 105; 108; 116; 111]; [102; 116; 112]]; p_dirhtml := true; p_all_external := false |}.
+     p_nitpick := []; p_url_schemes := [[104; 116; 116; 112]; [104; 116; 116; 112; 115]; [109; 97; 105; 108; 116; 111]; [102; 116; 112]]; p_dirhtml := true; p_all_external := false; p_commonmark_only := false; p_gfm_only := false |}.
 
 (* a/b/two.md: [](../one.md#sec-a-1)  ->  ../one.html#id1 , text "Sec A", no warning *)
 Example C12_example_anchor :
